@@ -1092,10 +1092,17 @@ func (p *scionPacketProcessor) processEPIC() disposition {
 
 	isPenultimate := p.path.IsPenultimateHop()
 	isLast := p.path.IsLastHop()
+	nextIsPenultimate := int(p.path.PathMeta.CurrHF)+2 == p.path.NumHops-1
 
 	disp := p.process()
 	if disp != pForward {
 		return disp
+	}
+	// At a cross-over this router has validated the first hop field of the next segment as well
+	// (its full MAC is the cached one). If that is the penultimate hop of the path, the PHVF has
+	// to be checked here: no other router of this AS may see the packet.
+	if p.effectiveXover && nextIsPenultimate {
+		isPenultimate = true
 	}
 
 	if isPenultimate || isLast {
